@@ -55,6 +55,9 @@ pub fn run_scene<F: Fn(&StepViolation) -> bool>(prop: &str, scene: &Scene, owns:
                 last = Some(after);
             }
             Err(v) => {
+                // the first violation in scan order, or else the first one of another category
+                // of the same step that this check owns
+                let v = if owns(&v) { v } else { take_others().into_iter().find(|o| owns(o)).unwrap_or(v) };
                 if owns(&v) {
                     let fid = classify(scene, i, &v);
                     return Err(Violation::new(format!("{}/{}", prop_kind(&v.kind), v.clause), scene.to_string(), format!("step {} ({}): {}\n{}", i, op.kind(), v.clause, v.detail)).finding(fid));
